@@ -1,6 +1,7 @@
 package sim
 
 import (
+	metav1 "k8s.io/apimachinery/pkg/apis/meta/v1"
 	"fmt"
 	"math/rand/v2"
 	"strings"
@@ -124,6 +125,13 @@ func genHistory(r *rand.Rand, tier string, o histOpts) *World {
 	}
 	if o.overrides {
 		w.Extra["overrides"] = "1"
+	}
+	if o.twoEDS && len(w.EDS) == 2 && w.EDS[0].NS != w.EDS[1].NS && chance(r, 0.4) {
+		// the template names a namespace (the one of the other ExtendedDaemonSet): pods belong to the
+		// namespace of their own replica set all the same
+		for _, t := range w.EDS[0].Templates {
+			t.Namespace = w.EDS[1].NS
+		}
 	}
 	if o.twoEDS && len(w.EDS) == 2 && w.EDS[0].NS == w.EDS[1].NS && chance(r, 0.4) {
 		// a template written from a dump of a pod of the other ExtendedDaemonSet: it carries the
@@ -306,7 +314,32 @@ func bodyC07(s *Sim) {
 	fmt.Sscan(s.W.Extra["failSteps"], &steps)
 	s.W.Cfg.ChaosSteps = steps
 	s.W.Cfg.NodeChurn, s.W.Cfg.AnnotationEdits, s.W.Cfg.KubeletFaults = false, false, false
+	// In half of the runs nobody but the controllers acts from here on, so that the outcome of the
+	// rollback can be stated exactly: whatever faults hit it, the failed template is not live again.
+	failedLetter, failedName, activeName := "", "", ""
+	if e != nil && e.Status.Canary != nil && s.rngEnv.IntN(2) == 0 {
+		if cr := s.Store.GetERS(def.NS, e.Status.Canary.ReplicaSet); cr != nil && ersCondTrue(&cr.Status, edsv1.ConditionTypeCanaryFailed) {
+			if e2 := s.Store.GetEDS(def.NS, def.Name); e2 != nil && e2.Annotations[edsv1.ExtendedDaemonSetCanaryValidAnnotationKey] == "" && e2.Status.ActiveReplicaSet != cr.Name {
+				failedLetter, failedName, activeName = letterOfTpl(&cr.Spec.Template), cr.Name, e2.Status.ActiveReplicaSet
+				s.W.Cfg.CLI, s.W.Cfg.TemplateEdits, s.W.Cfg.StrategyEdits, s.W.Cfg.ModeEdits, s.W.Cfg.EDSDelete = false, false, false, false, false
+			}
+		}
+	}
 	s.Chaos()
+	if failedLetter != "" {
+		s.fairRounds(4)
+		s.Stats.NonVacuous["C07.outcome"]++
+		if e2 := s.Store.GetEDS(def.NS, def.Name); e2 != nil && s.Store.GetERS(def.NS, activeName) != nil {
+			switch {
+			case e2.Status.ActiveReplicaSet != activeName:
+				s.Violate("C07", "outcome", "active", "canary %s (template %s) failed and nobody validated it; after the faults stopped and four fair rounds the active replica set is %s, it was %s", failedName, failedLetter, e2.Status.ActiveReplicaSet, activeName)
+			case letterOfTpl(&e2.Spec.Template) == failedLetter:
+				s.Violate("C07", "outcome", "template", "canary %s (template %s) failed and nobody changed the template afterwards; after the faults stopped and four fair rounds spec.template still is %s", failedName, failedLetter, failedLetter)
+			case e2.Status.Canary != nil:
+				s.Violate("C07", "outcome", "canary-restarted", "canary %s (template %s) failed; after the faults stopped and four fair rounds a canary is in progress again (%s)", failedName, failedLetter, e2.Status.Canary.ReplicaSet)
+			}
+		}
+	}
 	s.Quiesce()
 }
 
@@ -333,6 +366,9 @@ func genC10(r *rand.Rand, tier string, idx int) *World {
 	nset := r.IntN(3)
 	for i := 0; i < nset; i++ {
 		sd := &SettingDef{NS: "ns1", Name: fmt.Sprintf("set%d", i), Ref: "foo", Container: pick(r, "main", "main", "side"), Cpu: pick(r, "500m", "600m"), AgeSec: pick(r, -1, 0, 30, 60)}
+		if sd.Container == "main" && chance(r, 0.4) {
+			sd.Container2, sd.Cpu2 = "side", pick(r, "150m", "250m") // two containers: an override of the first must not disturb the second
+		}
 		switch r.IntN(3) {
 		case 0:
 			sd.Selector = map[string]string{"big": "1"}
@@ -461,6 +497,9 @@ func genC18(r *rand.Rand, tier string, idx int) *World {
 		case 4:
 			sd.Selector = map[string]string{"zone": "a", "pool": "x"}
 		}
+		if chance(r, 0.1) {
+			sd.Selector, sd.ExprKey, sd.ExprOp, sd.ExprVals = nil, "", "", nil // empty selector: every node
+		}
 		if chance(r, 0.07) && w.Extra["unusable"] == "" && idx%4 == 3 {
 			sd.Selector, sd.ExprKey, sd.ExprOp, sd.ExprVals = nil, "zone", "In", nil // In with no values: unusable
 			w.Extra["unusable"] = sd.Name
@@ -522,7 +561,7 @@ func genC19(r *rand.Rand, tier string, idx int) *World {
 		c.CanaryTimeout = ""
 		c.NodeSelector = nil
 	}
-	w.Extra["final"] = pick(r, "canary-pause", "canary-unpause", "canary-validate", "canary-fail", "ru-pause", "freeze")
+	w.Extra["final"] = pick(r, "canary-pause", "canary-unpause", "canary-validate", "canary-fail", "ru-pause", "freeze", "seq:canary-pause,canary-unpause,canary-pause", "seq:canary-unpause,canary-pause,canary-unpause")
 	w.Extra["c02prop"] = "C19"
 	if idx%3 == 1 {
 		w.Extra["finalFault"] = pick(r, "reject", "lost", "crash-before", "crash-after")
@@ -582,6 +621,42 @@ func bodyC19(s *Sim) {
 		return
 	}
 	cmd := s.W.Extra["final"]
+	if strings.HasPrefix(cmd, "seq:") {
+		// a sequence of up to three commands, each followed by fair reconciles and judged
+		for i, c := range strings.Split(strings.TrimPrefix(cmd, "seq:"), ",") {
+			e := s.Store.GetEDS(def.NS, def.Name)
+			if e == nil || e.Status.Canary == nil {
+				return
+			}
+			canary := e.Status.Canary.ReplicaSet
+			if r := s.Store.GetERS(def.NS, canary); r == nil || ersCondTrue(&r.Status, edsv1.ConditionTypeCanaryFailed) {
+				return
+			}
+			if t := s.RunCLI(c, key); t.Err != nil {
+				continue // refused (e.g. already paused): judged by the write-set monitor
+			}
+			s.Stats.NonVacuous["C19.sequence"]++
+			s.fairRounds(3)
+			e = s.Store.GetEDS(def.NS, def.Name)
+			if e == nil || e.Status.Canary == nil || e.Status.Canary.ReplicaSet != canary {
+				return
+			}
+			if r := s.Store.GetERS(def.NS, canary); r == nil || ersCondTrue(&r.Status, edsv1.ConditionTypeCanaryFailed) {
+				return
+			}
+			switch c {
+			case "canary-pause":
+				if e.Status.State != edsv1.ExtendedDaemonSetStatusStateCanaryPaused {
+					s.Violate("C19", "obeys", "sequence-pause", "command %d of %s: after canary-pause the state is %q, expected Canary Paused", i+1, cmd, e.Status.State)
+				}
+			case "canary-unpause":
+				if e.Status.State != edsv1.ExtendedDaemonSetStatusStateCanary {
+					s.Violate("C19", "obeys", "sequence-unpause", "command %d of %s: after canary-unpause the state is %q, expected Canary", i+1, cmd, e.Status.State)
+				}
+			}
+		}
+		return
+	}
 	before := e.DeepCopy()
 	var canaryERS string
 	condPaused := false
@@ -687,7 +762,7 @@ func bodyC19(s *Sim) {
 func init() {
 	register(&Profile{Name: "C19", Decide: []string{"C19"}, Quick: 1500, Thorough: 80000, Gen: genC19, Body: bodyC19,
 		NonVacuous: []string{"C19.command", "C19.obeyed"}, Chunk: 50,
-		Rule: "ExtendedDaemonSet states {no canary, canary running, auto-paused, user-paused, failed, mid rolling update} reached by seeded history with the real kubectl-eds command bodies running as simulated clients whose Get and Patch/Update interleave with reconciles; every command's write set and refusal is judged; then one final command followed by fair reconciles (in a third of the runs the first reconcile acting on a fail or validate command loses one of its ExtendedDaemonSet writes to a reject, a lost reply or a process stop before/after it), after which the controller's interpretation (state, promotion of exactly the validated replica set, rollback) is judged. " + histRule})
+		Rule: "ExtendedDaemonSet states {no canary, canary running, auto-paused, user-paused, failed, mid rolling update} reached by seeded history with the real kubectl-eds command bodies running as simulated clients whose Get and Patch/Update interleave with reconciles; every command's write set and refusal is judged; then one final command (or a sequence of three pause/unpause commands, each) followed by fair reconciles (in a third of the runs the first reconcile acting on a fail or validate command loses one of its ExtendedDaemonSet writes to a reject, a lost reply or a process stop before/after it), after which the controller's interpretation (state, promotion of exactly the validated replica set, rollback) is judged. " + histRule})
 }
 
 // ---------------------------------------------------------------------------------------
@@ -998,6 +1073,9 @@ func genC04(r *rand.Rand, tier string, idx int) *World {
 	w.Extra["c02prop"] = "C04"
 	w.Extra["c04end"] = pick(r, "hold", "hold", "promote")
 	w.Cfg.StrategyEdits = chance(r, 0.5)
+	if c := w.EDS[0].Strategy.Canary; c != nil && chance(r, 0.12) {
+		c.Replicas = pick(r, "0", "0%") // a canary that owns no node
+	}
 	w.Cfg.EndCanary = "validate"
 	return w
 }
@@ -1124,7 +1202,7 @@ func genC05(r *rand.Rand, tier string, idx int) *World {
 	w.Cfg.Stall = true
 	w.Cfg.ChaosSteps = pick(r, 15, 30, 60, 100)
 	w.Extra["c05"] = "1"
-	w.Extra["dropActive"] = pick(r, "0", "0", "0", "1")
+	w.Extra["dropActive"] = pick(r, "0", "0", "0", "1", "2")
 	return w
 }
 
@@ -1140,6 +1218,17 @@ func bodyC05(s *Sim) {
 	s.RunTask(CtrlEDS, key)
 	s.RunTask(CtrlEDS, key)
 	s.Chaos()
+	if s.W.Extra["dropActive"] == "2" {
+		// a foreground deletion of the active replica set: it is Terminating but still exists
+		if e := s.Store.GetEDS(def.NS, def.Name); e != nil && e.Status.ActiveReplicaSet != "" {
+			if r := s.Store.GetERS(def.NS, e.Status.ActiveReplicaSet); r != nil {
+				now := metav1.NewTime(s.Now())
+				r.DeletionTimestamp = &now
+				r.Finalizers = append(r.Finalizers, "foregroundDeletion")
+				s.Store.ForceUpdate(r)
+			}
+		}
+	}
 	if s.W.Extra["dropActive"] == "1" {
 		if e := s.Store.GetEDS(def.NS, def.Name); e != nil && e.Status.ActiveReplicaSet != "" {
 			s.Store.Remove(objKey{KERS, def.NS, e.Status.ActiveReplicaSet})
@@ -1183,7 +1272,7 @@ func bodyC05(s *Sim) {
 func init() {
 	register(&Profile{Name: "C05", Decide: []string{"C05"}, Quick: 2500, Thorough: 120000, Gen: genC05, Body: bodyC05,
 		NonVacuous: []string{"C05.switch"}, Chunk: 50,
-		Rule: "A canary is started through the real reconcilers (strategy auto or manual, duration 1-10 min, noRestartsDuration unset/0/positive); then a focused seeded phase of kubectl-eds canary pause/unpause/validate/fail, user edits of the canary-paused / canary-unpaused / canary-valid annotations, container restarts, replica-set syncs, ExtendedDaemonSet reconciles, stalls and clock jumps to boundary instants (creation+duration, last restart+noRestartsDuration, each at -1s, exactly, +1ns, +1s), optionally the recorded active replica set is deleted; finally the clock passes the end of the duration and the ExtendedDaemonSet is reconciled. Every change of status.activeReplicaSet is judged against the promotion rule. " + histRule})
+		Rule: "A canary is started through the real reconcilers (strategy auto or manual, duration 1-10 min, noRestartsDuration unset/0/positive); then a focused seeded phase of kubectl-eds canary pause/unpause/validate/fail, user edits of the canary-paused / canary-unpaused / canary-valid annotations, container restarts, replica-set syncs, ExtendedDaemonSet reconciles, stalls and clock jumps to boundary instants (creation+duration, last restart+noRestartsDuration, each at -1s, exactly, +1ns, +1s), optionally the recorded active replica set is deleted (at once, or in the foreground so that it stays Terminating); finally the clock passes the end of the duration and the ExtendedDaemonSet is reconciled. Every change of status.activeReplicaSet is judged against the promotion rule. " + histRule})
 }
 
 // C13: template edit histories, with every third run a failed-canary history (clean-up guards
